@@ -210,6 +210,16 @@ def gen_case(rng, tier, ctx, i):
             return {"recipe": w, "top_call": True}
     if rng.random() < 0.3:
         return {"recipe": confgen.gen_config(rng, cid=rng.random() < 0.7), "top_call": True}
+    if rng.random() < 0.1:
+        # implications whose condition is a threshold over a single leaf / a small node with an unusual value or sign
+        leaf = lambda i: {"k": "var", "id": i, "b": list(rng.choice([(0, 1), (0, 4), (-2, 2)]))}
+        cond = {"k": "AtLeast", "id": rng.choice([None, None, "CND"]), "args": [leaf("t")] + ([leaf("u")] if rng.random() < 0.3 else []),
+                "value": rng.choice([0, 1, 2, 3, -1]), "sign": rng.choice([None, None, 1, -1])}
+        cons = rng.choice([leaf("y"), {"k": "Any", "id": None, "args": [leaf("y"), leaf("z")]}])
+        rec = {"k": "Imply", "id": rng.choice([None, "IMP"]), "args": [cond, cons]}
+        if rng.random() < 0.4:
+            rec = {"k": rng.choice(["All", "Any"]), "id": None, "args": [rec, leaf("w")]}
+        return {"recipe": rec, "top_call": True}
     o = common.varied_opts(rng, tier, p_share=0.05, p_copy=0.05)
     if rng.random() < 0.3:
         o.kinds = ["AtLeast", "AtLeastS", "XNor", "Imply", "Not", "AtMost", "Xor", "ExactlyOne"]
